@@ -123,8 +123,12 @@ class Context:
                 known = inventory().get(rel)
                 if known is not None and os.environ.get("VERIF_NO_INLINE") != "1":
                     self.cache["inlined_helpers:" + rel] = inline_new_helpers(mod, known)
-                from .pyutil import unroll_literal_dispatch_inplace
+                from .pyutil import unroll_literal_dispatch_inplace, loops_to_comprehensions_inplace, merge_nested_ifs_inplace
                 unroll_literal_dispatch_inplace(mod)
+                if os.environ.get("VERIF_NO_IFMERGE") != "1":
+                    self.cache["ifmerge:" + rel] = merge_nested_ifs_inplace(mod)
+                if os.environ.get("VERIF_NO_LOOPCOMP") != "1":
+                    self.cache["loopcomp:" + rel] = loops_to_comprehensions_inplace(mod)
                 normalise_polarity(mod)
                 inline_temporaries(mod)
                 if known is not None and self.cache.get("inlined_helpers:" + rel):
@@ -198,6 +202,22 @@ def normalise_polarity(mod: ast.AST) -> int:
     rules that look at "the branch taken when T holds" then do not depend on which way round a developer wrote the test.
     elif chains are left alone (turning one inside out is not an edit anybody makes)."""
     n_flipped = 0
+    # first, negated single comparisons and double negations are written directly: not (a == b) is a != b, not (a in b) is a not in b,
+    # not not x is x where x is itself a boolean expression (comparison / not / and / or)
+    inverse = {ast.Eq: ast.NotEq, ast.NotEq: ast.Eq, ast.In: ast.NotIn, ast.NotIn: ast.In, ast.Is: ast.IsNot, ast.IsNot: ast.Is}
+
+    class _Neg(ast.NodeTransformer):
+        def visit_UnaryOp(self, n):
+            self.generic_visit(n)
+            if isinstance(n.op, ast.Not):
+                o = n.operand
+                if isinstance(o, ast.Compare) and len(o.ops) == 1 and type(o.ops[0]) in inverse:
+                    return ast.copy_location(ast.Compare(left=o.left, ops=[inverse[type(o.ops[0])]()], comparators=o.comparators), n)
+                if isinstance(o, ast.UnaryOp) and isinstance(o.op, ast.Not) and isinstance(o.operand, (ast.Compare, ast.BoolOp, ast.UnaryOp)):
+                    return o.operand
+            return n
+
+    _Neg().visit(mod)
     for n in ast.walk(mod):
         if not (isinstance(n, ast.If) and n.orelse):
             continue
